@@ -95,11 +95,19 @@ def run(ctx):
         else:
             tb_arg = tb
         arg = pd.DataFrame(tb_arg) if container == 0 else dict(tb_arg)
+        row_labels = "default"
+        if container == 0 and mode in (1, 2) and k % 2 == 0 and float(np.floor(p_i)) not in set(float(x) for x in p) and p[0] <= float(np.floor(p_i)):
+            # a frame cut from a larger one (`big.iloc[a:b]`, a filtered export) keeps the larger frame's integer row labels, and a whole-number
+            # initial pressure may coincide with one of them: `x in series` looks at LABELS, values are what the wrapper must read
+            p_i = float(np.floor(p_i))
+            first_label = int(p_i) - int(rng.integers(0, len(p)))
+            arg.index = pd.RangeIndex(first_label, first_label + len(p))
+            row_labels = f"integers {first_label} .. {first_label + len(p) - 1} (include the whole-number initial pressure)"
         if container == 2:
             for v in arg.values():
                 v.setflags(write=False)
         snap = snapshot(arg)
-        inp = dict(table_kind=kind, rows=len(p), p_i=p_i, user_alpha=bool(user_alpha), full_columns_too=bool(both), simple=bool(simple), row_order=rows_how, carries_stale_m_scaled_column=bool(stale), carries_unrelated_columns_with_blanks=bool(sparse),
+        inp = dict(table_kind=kind, rows=len(p), p_i=p_i, user_alpha=bool(user_alpha), full_columns_too=bool(both), simple=bool(simple), row_order=rows_how, carries_stale_m_scaled_column=bool(stale), carries_unrelated_columns_with_blanks=bool(sparse), row_labels=row_labels,
                    container=["DataFrame", "dict", "dict of read-only arrays"][int(container)],
                    table={c: [None if x != x else float(x) for x in v] for c, v in tb.items()})
         cls = FlowPropertiesSimple if (simple and not user_alpha) else FlowProperties
